@@ -30,7 +30,7 @@ MANIFEST = {
 PLAN = {
     # tier: (safety cfgs, liveness cfgs, tlc scenarios, generated scenarios, probes)
     "quick": (["MC_Spy_safety_quick.cfg"], ["MC_Spy_live_quick.cfg"], 60, 140, 3),
-    "thorough": (["MC_Spy_safety_thorough.cfg"], ["MC_Spy_live_thorough.cfg", "MC_Spy_live3_thorough.cfg"], 400, 1600, 12),
+    "thorough": (["MC_Spy_safety_thorough.cfg"], ["MC_Spy_live_thorough.cfg"], 400, 1600, 12),
 }
 
 ASSUME = [
